@@ -85,7 +85,7 @@ def run_job(job, workroot, tools, support_o):
         wit_text = compz.read_wit(job["wit"])
         root = compz.keyword_root_cause(err, wit_text, compz.C_KEYWORDS)
         if not root and re.search(r"(?<![\w-])(u?int(8|16|32|64)-t|size-t)(?![\w-])", wit_text) and \
-                re.search(r"expected ';' after expression|undeclared identifier|redefinition of|expected identifier", e):
+                re.search(r"expected ';' after expression|undeclared identifier|redefinition of|expected identifier|unknown type name '(u?int\d+_t|size_t)'", e):
             root = "stdint-typename-as-identifier"
         if not root:
             clash = compz.confirmed_temporary_collision(err, wit_text)
